@@ -188,11 +188,11 @@ def _events(pool):
     if QUICK["on"]:
         # quick tier: 4 programs, construction implicit in the first use
         for i in range(min(4, len(pool))):
-            ev += [("compute", i), ("graph", i), ("persist", i), ("drop", i)]
+            ev += [("compute", i), ("graph", i), ("persist", i), ("drop", i), ("update", i)]
         ev += [("cfg", ("array.optimize-graph", False)), ("cfg", ("split_every", 2)), ("cfg", ("array.unify-chunks-policy", "refine")), ("cfg_reset", None)]
         return ev
     for i in range(len(pool)):
-        ev += [("build", i), ("compute", i), ("graph", i), ("persist", i), ("drop", i)]
+        ev += [("build", i), ("compute", i), ("graph", i), ("persist", i), ("drop", i), ("update", i)]
     ev += [("cfg", ("array.optimize-graph", False)), ("cfg", ("array.unify-chunks-policy", "refine")), ("cfg", ("split_every", 2)), ("cfg", ("array.rechunk.threshold", 1)), ("cfg", ("array.chunk-size", "16B")), ("cfg", ("array.rechunk.method", "tasks")), ("cfg_reset", None)]
     return ev
 
@@ -206,6 +206,15 @@ def run_history(src, pool, hist, out=None):
     colls = {}
     cfg = {}
     ncompute = 0
+    nupd = {}
+
+    def ref_of(i):
+        r = _ref(pool[i], a, b)
+        if nupd.get(i):
+            r = np.array(r, dtype="f8", copy=True)
+            r[0:1] = -5.0 * nupd[i]
+        return r
+
     with dask.config.set({}):
         for kind, arg in hist:
             try:
@@ -222,11 +231,21 @@ def run_history(src, pool, hist, out=None):
                     else:
                         val = c.compute(scheduler="sync")
                         ncompute += 1
-                        f = _cmp(val, _ref(pool[arg], a, b), f"history:{pool[arg]}")
+                        f = _cmp(val, ref_of(arg), f"history:{pool[arg]}" + ("+updated" if nupd.get(arg) else ""))
                         if f:
                             return None, f
+                elif kind == "update":
+                    # an in-place update of a collection that may already have been
+                    # materialised (computed / graph built / persisted) before
+                    if arg not in colls:
+                        colls[arg] = _build(pool[arg], env)
+                    c = colls[arg]
+                    if c.ndim >= 1 and c.shape[0] >= 1 and c.dtype.kind == "f":
+                        nupd[arg] = nupd.get(arg, 0) + 1
+                        c[0:1] = -5.0 * nupd[arg]
                 elif kind == "drop":
                     colls.pop(arg, None)
+                    nupd.pop(arg, None)
                     gc.collect()
                 elif kind == "cfg":
                     dask.config.set({arg[0]: arg[1]})
@@ -244,7 +263,7 @@ def run_history(src, pool, hist, out=None):
                 continue
             except Exception as e:  # noqa: BLE001
                 return None, {"kind": "raise", "signature": f"history-raise:{E.exc_sig(e)}:{pool[i]}", "detail": f"final compute of {pool[i]} raised {type(e).__name__}: {str(e)[:200]}"}
-            f = _cmp(val, _ref(pool[i], a, b), f"history:{pool[i]}")
+            f = _cmp(val, ref_of(i), f"history:{pool[i]}" + ("+updated" if nupd.get(i) else ""))
             if f:
                 return None, f
     return "ok", None
@@ -279,7 +298,7 @@ def plan(tier, seed):
         "coverage": {
             "exhaustive": True,
             "bounds": {"configs": len(cfgs), "config_space": "one-at-a-time + all pairs of non-default (key,value)s" if tier == "quick" else "full cross product of all listed values", "programs": len(progs), "placements": ["build", "compute", "both"], "pools": len(pools), "history_length": L, "events_per_pool": len(_events(POOLS[0]))},
-            "rule": "(a) every program x every configuration of the listed optimizer/planner keys x {set at construction, at compute, at both}: value equals NumPy; (b) all histories of length <= L from the reset state (registries and _LOWER_CACHE cleared) over {build, compute, graph, persist, drop+gc of each of 5 programs sharing subtrees; config changes} : every compute in every history and every member at the end equals NumPy. Non-trivial = config differs from default / history with >= 2 distinct programs materialized",
+            "rule": "(a) every program x every configuration of the listed optimizer/planner keys x {set at construction, at compute, at both}: value equals NumPy; (b) all histories of length <= L from the reset state (registries and _LOWER_CACHE cleared) over {build, compute, graph, persist, in-place update (c[0:1] = v), drop+gc of each of 5 programs sharing subtrees; config changes} : every compute in every history and every member at the end equals NumPy. Non-trivial = config differs from default / history with >= 2 distinct programs materialized",
         },
         "assumptions": ["reset state = SingletonExpr registries and _LOWER_CACHE cleared + gc.collect()", "synchronous scheduler"],
     }
